@@ -130,13 +130,21 @@ impl Drop for SubSocket {
 
 impl SubSocket {
     pub async fn subscribe(&mut self, subscription: &str) -> ZmqResult<()> {
-        self.backend.subs.lock().insert(subscription.to_string());
+        // `subs` is a set and is what a peer that connects later is told. Publishers count
+        // subscriptions, so only a change of the set may go on the wire: repeating a
+        // SUBSCRIBE would leave the peers connected now with one more subscription than a
+        // single unsubscribe removes, and than later peers ever hear about.
+        if !self.backend.subs.lock().insert(subscription.to_string()) {
+            return Ok(());
+        }
         self.process_subs(subscription, SubBackendMsgType::SUBSCRIBE)
             .await
     }
 
     pub async fn unsubscribe(&mut self, subscription: &str) -> ZmqResult<()> {
-        self.backend.subs.lock().remove(subscription);
+        if !self.backend.subs.lock().remove(subscription) {
+            return Ok(());
+        }
         self.process_subs(subscription, SubBackendMsgType::UNSUBSCRIBE)
             .await
     }
